@@ -27,6 +27,6 @@ def run(ctx):
         rule="buffers: every length 0..64 x {zeros, 0xff, counter, abab, random} (exhaustive), then seeded structured/random buffers up to %s; each buffer x 5 algorithms x "
              "{default path, levels below min .. above max}; distinct_nontrivial = distinct non-empty buffers (hash of content)" % ("4 MiB" if th else "1 MiB"),
         evaluations=s.get("roundtrips", 0),
-        floors={"small.buffers": 325, "roundtrips": 5000, "names.roundtrip": 6, "names.refused": 10, "badtype.calls": 4, "huge.buffers": 11, "hugerand.zlib.compressed_form_ge_1GiB": 1, "hugerand.zlib.roundtrip_exact": 2},
+        floors={"small.buffers": 325, "roundtrips": 5000, "names.roundtrip": 6, "names.refused": 10, "names.neighbours.not-a-name": 10000, "names.neighbours.name-up-to-case": 100, "badtype.calls": 4, "huge.buffers": 11, "hugerand.zlib.compressed_form_ge_1GiB": 1, "hugerand.zlib.roundtrip_exact": 2},
         exhaustive=False,
         extra={"exhaustive_subspace": "lengths 0..64 x 5 contents x 5 algorithms x %d levels" % (19 if th else 6)})
